@@ -18,6 +18,13 @@ Theorem C09_source_shape : shape_eqb src_shape std_shape = true.
 Proof. vm_compute. reflexivity. Qed.
 Print Assumptions C09_source_shape.
 
+(* ASSUMPTION of the model behind the next theorem: every record reaches the file, and stamps it, at the time it is written
+   (the active file's modification time is the time of its last Write) - i.e. the sink is flushed or inspected between
+   operations.  The model has no write buffer.  Where this fails the theorem's conclusion fails on the real sink: a record
+   written before midnight that is still in QFile's buffer when the sink object is destroyed after midnight stamps the file
+   with the new day, and a restarted sink then lets both days share the file (open finding F21; checks/rotate_util.py,
+   probe_buffered_record_crosses_midnight runs exactly that history on the real sink).  A formal `_refuted` statement would
+   need a buffered/flushed distinction in the world record and in every invariant; it is kept at the probe level. *)
 (* daily, N <> 1: the records of the active file share one calendar day; the records of every rotated file (present or removed) share one day and the date in its name is the civil date of that day *)
 Theorem C09_days_apart_and_name_carries_day : forall c t0 ops, clean c ops -> let w := run src_shape c t0 ops in daily c = true -> cN c <> 1 ->
   Forall (fun r => rday r = day_of c (act_mt w)) (act w) /\
